@@ -497,6 +497,9 @@ MANIFEST = dict(
           'the global context) state for ALL data, Content-Length values (any integer), buffer sizes > 0 and '
           'fragmentation schedules that the body is exactly the first Content-Length bytes, the stream is left exactly '
           'after them, and every read request is positive, at most one buffer and never reaches past Content-Length. '
+          'C04_translated_loop_exact states the same for the loop as TRANSLATED statement by statement from the '
+          'current source of _iter_body on every run (tools/gen_loops.py -> coq/gen/GenLoops.v; proofs/C04_translated.v '
+          'proves the translation and the hand-written model agree), so an edit of the loop breaks a proof obligation directly. '
           'The Request-level glue (cached body rewound on every access, wsgi.input replaced by the buffered copy, '
           'Request.copy, Request.__setitem__) is a second model (coq/model/ReqBody.v: op sequences over the family of '
           'request objects descending from one request by copy()): C04_first_access_exact (after any copies and header '
@@ -510,6 +513,6 @@ MANIFEST = dict(
     note=('Trusted: Coq kernel + vm_compute; extraction (ExtrOcamlBasic only); the Python harness; the stream model '
           '(read returns b"" only at EOF, never more than asked). Modelled not verified: the OS temporary file used '
           'for spooling.'),
-    technique='Coq proof (induction on fuel, closed-form loop invariant) + model/implementation correspondence',
+    technique='Coq proof (induction on fuel, closed-form loop invariant; invariant over operation sequences) about a hand-written model AND about the read loop translated from the source on every run + model/implementation correspondence',
     design_ref='DESIGN.md section 4, C04',
 )
